@@ -209,7 +209,11 @@ def stopwatch(chk, prog):
     chk.check(users == {"emulate_frames"}, "T-NONINT/Stopwatch/users", "the host stopwatch is consulted in %s" % sorted(users))
 
 
+_CACHE = {}
+
+
 def mixer_isolation(chk, prog, names, cg, fa):
+    _CACHE.clear()
     MIX = prog.adt_path("rustzx_core", "ZXMixer")
     roots = [prog.fn_path("rustzx_core", "ZXMixer::" + n) for n in ("process", "new_frame", "pop", "gen_sample")]
     G = set(p for p in cg.reachable(roots) if p in prog.fns and prog.fns[p].local)
@@ -253,7 +257,11 @@ def mixer_isolation(chk, prog, names, cg, fa):
         rd = set(fa.readers(adt, field)) | set(p for p in fa.writers(adt, field))
         outside = sorted(p for p in rd if p not in G and not ctor(p))
         # configuration setters (volume, use_ay, beeper.change_state, AY register writes) may write, but must not read back
-        readers_out = sorted(p for p in fa.readers(adt, field) if p not in G and not ctor(p))
+        # readers that the machine itself can run: reachable from the emulator's API surface (a statistics getter of a
+        # library crate that nothing in the core calls cannot carry generation state into emulated state)
+        if "core_reach" not in _CACHE:
+            _CACHE["core_reach"] = set(cc.strip_closure(p) for p in cg.reachable(list(cc.api_entry_points(prog, names))))
+        readers_out = sorted(p for p in fa.readers(adt, field) if p not in G and not ctor(p) and cc.strip_closure(p) in _CACHE["core_reach"])
         allowed_readers = set()
         if adt == MIX and field in ("ay", "beeper"):
             # sub-device handles are traversed by port code to reach registers / beeper bits: judged per leaf field
